@@ -94,6 +94,8 @@ def run(tier, replay):
                 n += 1
                 jobs.append(c02.dline("%s.%d.%d.w%d" % (ent["name"], il, m, n), ent["name"], il, m, (round(w[0], 6), round(w[1], 6)),
                                       rng.randrange(1, 2 ** 31), nev))
+    # every cascade path of every daughter level (steered): the rare branches close the budget as well
+    jobs += [l_ for (l_, m_) in c02.cascade_jobs(S, rng, 2 if thorough else 1)]
     nsh = 8
 
     def shard(i):
